@@ -32,6 +32,7 @@ type RangeV struct {
 	Prefix string // first pair component equals Prefix ("" = no prefix)
 	Until  string // first pair component is at most Until (NewPrefixUntilPairRange)
 	Lo, Hi string // bounds on the second component (pair range with a prefix) or on the key (plain range); "" = open
+	KeyBounds bool // Range[Pair[..]]: Lo / Hi are whole pair keys (lexicographic bounds)
 	LoIncl bool
 	HiIncl bool
 	Desc   bool
@@ -184,6 +185,14 @@ func init() {
 	reg("cosmossdk.io/collections.NewPrefixedPairRange", "NewPrefixedPairRange(p) ranges over exactly the keys whose first component is p, ascending", func(c *CallCtx) []Outcome {
 		return c.ret(RangeV{Prefix: c.t(0)})
 	})
+	reg("cosmossdk.io/collections.PairPrefix", "PairPrefix(a) is the smallest key with first component a (second component: the empty / zero value)", func(c *CallCtx) []Outcome {
+		rt := c.resultType(0)
+		second := "0"
+		if n, ok := types.Unalias(rt).(*types.Named); ok && n.TypeArgs() != nil && n.TypeArgs().Len() == 2 {
+			second = c.x.enc.Zero(n.TypeArgs().At(1))
+		}
+		return c.ret(TV{T: app("mkpair", c.t(0), second), Ty: rt})
+	})
 	reg("cosmossdk.io/collections.NewPrefixUntilPairRange", "NewPrefixUntilPairRange(p) ranges over the keys whose first component is at most p, in key order", func(c *CallCtx) []Outcome {
 		return c.ret(RangeV{Until: c.t(0)})
 	})
@@ -209,6 +218,9 @@ func init() {
 		bound := func(lo, incl bool) func(c *CallCtx) []Outcome {
 			return func(c *CallCtx) []Outcome {
 				r, _ := rangeOf(c)
+				if strings.Contains(recv, "collections.Range[") && strings.HasPrefix(c.x.enc.Sort(c.tv(1).Ty), "(Pair") {
+					r.KeyBounds = true
+				}
 				if lo {
 					r.Lo, r.LoIncl = c.t(1), incl
 				} else {
